@@ -523,3 +523,7 @@ def run(ck, prog, ctx):
             ck.ob("ROLE", name + "/group", kinds == {want}, "%s iterates a group built with %s (expected `%s`)" % (name, "/".join(sorted(kinds)) or "no operator", "&" if want == "and" else "|"), where=b.where(t.line))
             if name == "all_common_ancestors":
                 ck.ob("ROLE", name + "/ids", "id" in field_names(at, "HpoTerm"), "all_common_ancestors includes the terms themselves", where=b.where(t.line))
+    # container methods of the wrapper types answer with the same-named method of one inner collection
+    ck.rule("WRAPPER", "len / is_empty / contains / get / iter / push ... of a wrapper type delegate to the same-named method of ONE inner collection, un-negated (DESIGN 3.9)")
+    from engines import check_wrappers
+    check_wrappers(ck, "WRAPPER", prog, r"^src/term/group\.rs$", floor=5)
